@@ -1,6 +1,8 @@
 //! wf-stark — engines for the end-to-end STARK properties (C01, C02, C03, C06, C28, C29).
 #![allow(clippy::all)]
 mod attack;
+#[cfg(feature = "examples")]
+mod examples;
 mod genair;
 mod run;
 mod validate;
@@ -105,6 +107,24 @@ fn attack_engine(args: &[String]) -> i32 {
     0
 }
 
+#[cfg(feature = "examples")]
+fn examples_engine(args: &[String]) -> i32 {
+    let cases = read_ndjson(&args[0]);
+    let mut out = Out::new();
+    for (i, c) in cases.iter().enumerate() {
+        let mut r = wfcommon::util::catch(|| examples::run(c)).unwrap_or_else(|p| json!({"verdict": "setup_panic", "detail": p}));
+        r["i"] = json!(i);
+        out.emit(&r);
+        out.flush();
+    }
+    0
+}
+#[cfg(not(feature = "examples"))]
+fn examples_engine(_args: &[String]) -> i32 {
+    eprintln!("built without the examples crate");
+    2
+}
+
 fn validate_engine(args: &[String]) -> i32 {
     let cases = read_ndjson(&args[0]);
     let mut out = Out::new();
@@ -158,6 +178,7 @@ fn main() {
         Some("validate") => validate_engine(&args[2..]),
         Some("digests") => digests_engine(&args[2..]),
         Some("attack") => attack_engine(&args[2..]),
+        Some("examples") => examples_engine(&args[2..]),
         Some("tables") => tables_engine(&args[2..]),
         _ => {
             eprintln!("usage: wf-stark <pipeline> ...");
